@@ -25,12 +25,16 @@
 (*      an entry that a concurrent write_page created meanwhile by a clean   *)
 (*      page object: the dirty flag is dropped without a writeback.  Design  *)
 (*      without it: an existing entry is kept.                               *)
-(* Modelled as it is (no contract clause concerned): a dirty victim that     *)
-(* another evictor already deleted makes `del` raise KeyError ("exc").       *)
+(*  "evict_double_delete"  (no contract clause concerned, crash only) a      *)
+(*      dirty victim that another evictor already deleted during the write   *)
+(*      latency is counted as written back and `del` raises KeyError.        *)
+(*      Design without it: the evictor notices that the victim is gone and   *)
+(*      looks at the cache size again.                                       *)
 EXTENDS Naturals, Integers, Sequences, FiniteSets, TLC
 
 P1 == "load_inserts_without_recheck"
 P2 == "load_overwrites_dirty_page"
+P3 == "evict_double_delete"
 
 Has(q, x) == \E i \in 1..Len(q) : q[i] = x
 Without(q, x) == LET F[i \in 0..Len(q)] == IF i = 0 THEN <<>> ELSE IF q[i] = x THEN F[i - 1] ELSE Append(F[i - 1], q[i])
@@ -69,7 +73,8 @@ Adv(g, s, op) ==
       [] op.st = "evwb" ->
             LET s1 == [s EXCEPT !.wb = @ + 1]
             IN IF Has(s.pg, op.victim) THEN Adv(g, Drop(s1, op.victim), [op EXCEPT !.st = "ens"])
-               ELSE POut(s1, op, TRUE, -1, "-")              \* KeyError: someone else deleted the victim
+               ELSE IF P3 \in g.dev THEN POut(s1, op, TRUE, -1, "-")   \* KeyError: someone else deleted the victim
+               ELSE Adv(g, s, [op EXCEPT !.st = "ens"])
       [] op.st = "rd" -> POut(s, [op EXCEPT !.st = "ins"], FALSE, 0, "RL")
       [] op.st \in {"ins", "rains"} ->
             LET p == Tgt(op) IN
